@@ -15,6 +15,8 @@ def EnvOK (s : W) : Op → Prop
   | .writeJSON enc dnp fullp dn full =>
     PrevEnvOK s dnp fullp ∧
     ∀ h s1, nextWriter s 1 dnp fullp = (.ok h, s1) → CloseEnvOK (hWrite s1 h enc dn).2 h [] full
+  -- a prepared *data* message closes the writer the application left open first (repair of F8)
+  | .writePrepared t _ dnp fullp => isData t = true → PrevEnvOK s dnp fullp
   | _ => True
 
 /-- WriteMessage's fast path: one final frame from a fresh messageWriter that is never stored -/
@@ -173,22 +175,59 @@ theorem writeControl_good {c : Cfg} {s : W} (t : Int) (data : Bytes) (d : Int) (
         rw [WS.WireInv.controlFrame_eq' _ _ _ _ hlen', hsv]
         exact good_ctl _ _ _ _ _ (ctlKey_good hg) ht' hlen'
 
-/-- a prepared data message may be sent when no messageWriter is open -/
-theorem good_preparedData {c : Cfg} {s : W} (t : Int) (img : Bytes) (gs : List Frame) (hg : Good c s)
+/-- the state in which `writePreparedImage` calls `Conn.write`: for a data type the writer the
+    application left open has been closed (as in `beginMessage`) -/
+theorem good_preparedPrev {c : Cfg} {s : W} (t : Int) (dnp : List Bytes) (fullp : Bytes) (hg : Good c s)
+    (hdn : isData t = true → ∀ x ∈ dnp, x.length < 2 ^ 40)
+    (henv : isData t = true → PrevEnvOK s dnp fullp) :
+    Good c (if isData t = true then closePrev s dnp fullp else s) ∧
+    (isData t = true → AllEnded (if isData t = true then closePrev s dnp fullp else s).mws) := by
+  split
+  · rename_i ht
+    have := closePrev_good dnp fullp hg (hdn ht) (henv ht)
+    exact ⟨this.1, fun _ => this.2.1⟩
+  · rename_i ht
+    exact ⟨hg, fun h => absurd h ht⟩
+
+/-- `Conn.write` of one complete data message while no messageWriter is open -/
+theorem good_dataWrite {c : Cfg} {s : W} (t d : Int) (img : Bytes) (gs : List Frame) (hg : Good c s)
     (hdec : decodeStream img = some gs) (hwf : WellFormed c.ctx gs) (hend : endsInMsg false gs = false)
-    (hno : ∀ m ∈ s.mws, m.err.isSome) : Good c (writePreparedImage s t img).2 := by
-  unfold writePreparedImage
+    (ha : AllEnded s.mws) : Good c (connWrite s t d img []).2 := by
   refine good_connWrite _ _ _ [] gs hg (fun hn => ⟨by rw [List.append_nil]; exact hdec, hwf.1, ?_⟩)
   intro o hL
-  have ha : AllEnded s.mws := fun j m hm => hno m (List.mem_of_getElem? hm)
   have ho : o = false := hL.ofalse ha hn
   subst ho
   exact ⟨hwf.2, hend⟩
 
-theorem good_preparedCtl {c : Cfg} {s : W} (ft : Int) (t : Nat) (key : Key) (data : Bytes) (hg : Good c s)
-    (ht : t = 8 ∨ t = 9 ∨ t = 10) (hd : data.length ≤ 125) :
-    Good c (writePreparedImage s ft (encode c.sv (t + 128) key data)).2 := by
+/-- a prepared data message may be sent at any time when its type is a data type — the open
+    messageWriter, if any, is closed first (repair of F8) —, and otherwise (type / image mismatch,
+    impossible through `WritePreparedMessage`) when no messageWriter is open -/
+theorem good_preparedData {c : Cfg} {s : W} (t : Int) (img : Bytes) (dnp : List Bytes) (fullp : Bytes)
+    (gs : List Frame) (hg : Good c s)
+    (hdec : decodeStream img = some gs) (hwf : WellFormed c.ctx gs) (hend : endsInMsg false gs = false)
+    (hno : isData t = true ∨ ∀ m ∈ s.mws, m.err.isSome)
+    (hdn : isData t = true → ∀ x ∈ dnp, x.length < 2 ^ 40)
+    (henv : isData t = true → PrevEnvOK s dnp fullp) :
+    Good c (writePreparedImage s t img dnp fullp).2 := by
   unfold writePreparedImage
-  exact good_ctl _ _ _ _ _ hg ht hd
+  dsimp only
+  obtain ⟨hg', ha'⟩ := good_preparedPrev t dnp fullp hg hdn henv
+  refine good_dataWrite _ _ _ gs hg' hdec hwf hend ?_
+  rcases hno with ht | hno
+  · exact ha' ht
+  · by_cases ht : isData t = true
+    · exact ha' ht
+    · rw [if_neg ht]
+      exact fun j m hm => hno m (List.mem_of_getElem? hm)
+
+theorem good_preparedCtl {c : Cfg} {s : W} (ft : Int) (t : Nat) (key : Key) (data : Bytes)
+    (dnp : List Bytes) (fullp : Bytes) (hg : Good c s)
+    (ht : t = 8 ∨ t = 9 ∨ t = 10) (hd : data.length ≤ 125)
+    (hdn : isData ft = true → ∀ x ∈ dnp, x.length < 2 ^ 40)
+    (henv : isData ft = true → PrevEnvOK s dnp fullp) :
+    Good c (writePreparedImage s ft (encode c.sv (t + 128) key data) dnp fullp).2 := by
+  unfold writePreparedImage
+  dsimp only
+  exact good_ctl _ _ _ _ _ (good_preparedPrev ft dnp fullp hg hdn henv).1 ht hd
 
 end WS.WFInv
